@@ -30,7 +30,7 @@ RULE = (
 )
 BUDGET = {
     "quick": {"examples": 300, "shards": 4, "enum_shards": 8},
-    "thorough": {"examples": 5000, "shards": 16, "enum_shards": 16},
+    "thorough": {"fuzz_runs": 3000, "examples": 5000, "shards": 16, "enum_shards": 16},
 }
 EXHAUSTIVE = {
     "quick": "all mutator histories of length <=2 over the small universe x 12 read disciplines",
